@@ -373,6 +373,33 @@ def demands_attr_extent(A, m, prm):
     arrs = {"self." + nm for nm, ty in spec if "[" in ty}
     if not arrs:
         return None
+    # locals that have the extent of an array attribute: `v = self.weights != 0`, or the result of an own
+    # method whose returned expression has it (`self.is_penalized(n)` returns `self.weights != 0`)
+    def own_method_extent(call):
+        if isinstance(call, ast.Call) and isinstance(call.func, ast.Attribute) and isinstance(call.func.value, ast.Name) \
+                and call.func.value.id == "self":
+            mm = m.cls.find_method(call.func.attr)
+            if mm is not None:
+                for r in ast.walk(mm.node):
+                    if isinstance(r, ast.Return) and r.value is not None and _shape_leaves(r.value) & arrs:
+                        return sorted(_shape_leaves(r.value) & arrs)[0]
+        return None
+    local_ext = {}
+    for st in ast.walk(m.node):
+        if isinstance(st, ast.Assign) and len(st.targets) == 1 and isinstance(st.targets[0], ast.Name):
+            hit = _shape_leaves(st.value) & arrs
+            src = sorted(hit)[0] if hit else own_method_extent(st.value)
+            if src:
+                local_ext[st.targets[0].id] = src
+    for node in ast.walk(m.node):
+        if isinstance(node, ast.For) and isinstance(node.target, ast.Name) and isinstance(node.iter, ast.Call) \
+                and ast.unparse(node.iter.func) == "range" and len(node.iter.args) == 1 \
+                and ast.unparse(node.iter.args[0]) in (f"len({prm})", f"{prm}.shape[0]"):
+            v = node.target.id
+            for sub in ast.walk(node):
+                if isinstance(sub, ast.Subscript) and isinstance(sub.value, ast.Name) and sub.value.id in local_ext \
+                        and isinstance(sub.slice, ast.Name) and sub.slice.id == v:
+                    return local_ext[sub.value.id], f"for {v} in range({ast.unparse(node.iter.args[0])}): {norm_src(sub)}"
     for node in ast.walk(m.node):
         if isinstance(node, (ast.BinOp, ast.Compare)) or (isinstance(node, ast.Call) and _shape_leaves(node)):
             lv = _shape_leaves(node)
